@@ -54,6 +54,16 @@ CHECKS = {
          "Every point of attempts (0..2000/10000 dense, 2^k and 2^k+-1 for k<=63, i32/u32/usize limits) x 7 initial intervals x 5 multipliers x 7 max_interval settings x 4 randomization factors is evaluated under catch_unwind for ExponentialBackoff, ExponentialRandomBackoff (16 draws per point) and every ReconnectPolicy constructor: no panic, non-decreasing in the attempt, equal to initial*multiplier^attempt below the cap and equal to the cap beyond it, jitter within the factor; the default reconnect layer and retry layers run 2-6 virtual hours (200 virtual years uncapped) against an always-failing backend.",
          "Jitter draws come from the thread RNG (bounds checked on every draw, draws not enumerated).",
          "4 C14"),
+ "C06": ("svcx", "model_checking",
+         "explicit-state BFS over event schedules of the real TimeLimiter under a controlled scheduler and virtual clock",
+         "Every schedule of two callers (fixed and per-request deadlines of 20/30 ms), gated inner completions (ok/err) before, at and after the deadline or never, drops and timer firings is executed in both cancellation modes and under several select! seeds; every caller must be resolved by first-poll + timeout: with exactly its inner call's result at the instant the result became available if that is before the deadline, with the timeout error at the deadline otherwise; on timeout the inner call is dropped in that same poll (cancel mode) or keeps running and completes (background mode, also after the caller was dropped).",
+         "Prompt executor; deadline starts at the first poll; unbiased select! fixed per execution via rng_seed and explored under 2-4 seeds (both tie resolutions are required witnesses); a completion exactly at the deadline may go either way.",
+         "4 C06"),
+ "C10": ("seq+svcx", "model_checking",
+         "explicit-state BFS over operation histories of the real Cache in lock-step with a set-valued reference cache, plus BFS over schedules of concurrent misses",
+         "All histories up to the stated depth over {get key A/B/C via either of two service handles on one store with inner ok/err, wait 10 ms} for LRU/LFU/FIFO x max_size 1-2 x TTL none/20/50 ms x private/shared store run on the real cache; every call must be a hit or a miss exactly as the reference allows: a hit returns the serial most recently stored for that key, never another key's or an expired one, makes no inner call; a miss makes exactly one; errors are never stored; evicted keys (policy victim) miss. Concurrent gated misses on one key are explored over all poll/completion orders.",
+         "Set-valued points: LFU ties, lookups at exactly the TTL, eviction of an already expired entry instead of the policy victim.",
+         "4 C10"),
 }
 
 NOT_YET = {}
